@@ -19,4 +19,4 @@ cargo nextest run --workspace --no-fail-fast --tool-config-file pb:/w/lib/nextes
 git checkout -q -- . ; git clean -fdq -- boreal/tests boreal-cli/tests 2>/dev/null
 SUITE=$(grep Summary $OUT/suite_with_patch.txt)
 echo "demo_head_rc=$R0 demo_patch_rc=$R1 suite: $SUITE" | tee -a $OUT/verify.log
-cp $D/patch.diff $OUT/patch.diff; cp $D/meta.json $OUT/meta_agent.json; cp $D/demo* $OUT/ 2>/dev/null; cp $D/README* $OUT/ 2>/dev/null
+cp $D/patch.diff $OUT/patch.diff; cp $D/meta.json $OUT/meta_agent.json; cp $D/demo* $D/*.rs $D/README* $OUT/ 2>/dev/null
